@@ -25,6 +25,7 @@ func c19(c *Ctx) {
 	c19R6(c)
 	c19R7(c)
 	c19R8(c)
+	c19R9(c)
 }
 
 // R1 slot conservation in the node reconciler.
@@ -1011,4 +1012,59 @@ func c19R8(c *Ctx) {
 		})
 		c.Check(okSrc, "C19.R8", "createOrUpdate: the limits come from GetLimit(<instance type>)", p.Pos(s.Node), fn.Key(), "NodeCap{…limit…} with limit := GetLimit(…, <node>.InstanceType)", "source not recognised")
 	}
+}
+
+// R9: the advertised pod-address capacity counts only interfaces that serve
+// ordinary pod addresses. In k8sAnno every addition of a flavor's slots to the
+// normal-address total is under "secondary interface in standard traffic mode,
+// or trunk": a high-performance (RDMA) interface is advertised separately and
+// must not be counted twice.
+func c19R9(c *Ctx) {
+	p := c.P
+	c.Rule("C19.R9", "controller/node k8sAnno: a flavor's count enters the normal pod-address capacity only for (Secondary ∧ Standard traffic mode) ∨ Trunk — the RDMA interface, advertised as its own resource, is not counted as ordinary capacity")
+	fn := p.Func("pkg/controller/node", "ReconcileNode.k8sAnno")
+	if fn == nil {
+		c.Unres("C19.R9", "ReconcileNode.k8sAnno", "not found")
+		return
+	}
+	info := fn.Info()
+	// spellings of the constants as the file writes them
+	spell := map[string]string{}
+	ast.Inspect(fn.Decl.Body, func(k ast.Node) bool {
+		if sel, ok := k.(*ast.SelectorExpr); ok {
+			switch sel.Sel.Name {
+			case "ENITypeSecondary", "ENITypeTrunk", "NetworkInterfaceTrafficModeStandard":
+				spell[sel.Sel.Name] = exprString(sel)
+			}
+		}
+		return true
+	})
+	n := 0
+	ast.Inspect(fn.Decl.Body, func(k ast.Node) bool {
+		as, ok := k.(*ast.AssignStmt)
+		if !ok || len(as.Lhs) != 1 || len(as.Rhs) != 1 || (as.Tok != token.ADD_ASSIGN && as.Tok != token.ASSIGN) {
+			return true
+		}
+		// RHS mentions <item>.Count with item a Flavor, and the per-adapter address count
+		var item string
+		ast.Inspect(as.Rhs[0], func(j ast.Node) bool {
+			if sel, ok := j.(*ast.SelectorExpr); ok && sel.Sel.Name == "Count" && typeIs(info.TypeOf(sel.X), modPath+"/"+apiPkg, "Flavor") {
+				item = exprString(sel.X)
+			}
+			return true
+		})
+		if item == "" || !strings.Contains(exprString(as.Rhs[0]), "IPv4PerAdapter") {
+			return true
+		}
+		// only the shared-interface branch (exclusive mode counts interfaces, not addresses)
+		n++
+		if spell["ENITypeSecondary"] == "" || spell["ENITypeTrunk"] == "" || spell["NetworkInterfaceTrafficModeStandard"] == "" {
+			c.Undec("C19.R9", "k8sAnno: capacity term for "+item, p.Pos(as), fn.Key(), "the type / mode constants are tested in the function", "a constant is not mentioned at all")
+			return true
+		}
+		req := fmt.Sprintf("(%[1]s.NetworkInterfaceType == %[2]s && %[1]s.NetworkInterfaceTrafficMode == %[4]s) || %[1]s.NetworkInterfaceType == %[3]s", item, spell["ENITypeSecondary"], spell["ENITypeTrunk"], spell["NetworkInterfaceTrafficModeStandard"])
+		c.Require("C19.R9", "k8sAnno: a flavor counts as ordinary capacity only if Secondary∧Standard or Trunk", fn, as, req, nil)
+		return true
+	})
+	c.Floor("C19.R9", "capacity terms in k8sAnno", 1, n)
 }
